@@ -10,12 +10,12 @@ git -C /repo worktree prune; git -C /repo worktree add -q -f --detach $W HEAD ||
 cd $W
 cp $OUT/demo_test.go $DEMODIR/zz_seed_demo_test.go
 echo "== demo on unchanged code (expect ok)"
-go test -vet=off -count=1 -run 'Demo|C[0-9][0-9]' ./$DEMODIR/ 2>&1 | tail -3
+go test $RACE -vet=off -count=1 -run 'Demo|C[0-9][0-9]' ./$DEMODIR/ 2>&1 | tail -3
 git apply $OUT/patch.diff || { echo "PATCH DOES NOT APPLY"; }
 echo "== build with patch"
 go build ./... 2>&1 | tail -3
 echo "== demo with patch (expect FAIL)"
-go test -vet=off -count=1 -run 'Demo|C[0-9][0-9]' ./$DEMODIR/ 2>&1 | tail -4
+go test $RACE -vet=off -count=1 -run 'Demo|C[0-9][0-9]' ./$DEMODIR/ 2>&1 | tail -4
 rm $DEMODIR/zz_seed_demo_test.go
 echo "== existing tests with patch (expect ok)"
 go test -vet=off -count=1 $PKGS 2>&1 | tail -6
